@@ -186,6 +186,11 @@ func (m *Machine) initPackage(pkg *ssa.Package) {
 	if skipInitPkgs[pkg.Pkg.Path()] {
 		return
 	}
+	if f, ok := pkgInitOverrides[pkg.Pkg.Path()]; ok {
+		m.stubs["init-override:"+pkg.Pkg.Path()]++
+		f(m, pkg)
+		return
+	}
 	m.lenient++
 	m.initDepth++
 	savedTop := m.initTop
@@ -939,3 +944,6 @@ func muxRead(n int, at func(int) *Term, idx *Term) *Term {
 
 // fallThrough is returned by an intrinsic that declines the call (the SSA body is executed instead).
 var fallThrough = &struct{ x int }{}
+
+// pkgInitOverrides replaces the initialiser of packages whose real init cannot be executed (reflection).
+var pkgInitOverrides = map[string]func(m *Machine, pkg *ssa.Package){}
